@@ -37,7 +37,7 @@ def where_in_repo(tb):
     return best
 
 
-def process_case(case, lit, want_text, capture_opt=False, disable_opt=False):
+def process_case(case, lit, want_text, capture_opt=False, disable_opt=False, want_flat=False):
     out = {"id": case["id"], "code": case["code"], "status": "ok", "kernels": []}
     try:
         objs, options, ns = ffx.build_case(case["code"])
@@ -76,6 +76,13 @@ def process_case(case, lit, want_text, capture_opt=False, disable_opt=False):
             if is_c:
                 text = Formatter(cap.options["scalar_type"])(k["ast"])
                 kd["text_tied"] = text in cap.code[1]
+                if want_flat:
+                    # the same tree under one identifier per name, and the text the real formatter prints for it
+                    fitn = ffx.FlatInterner(ffx.c_printed)
+                    fs = ffx.conv_stmt(k["ast"], fitn)
+                    kd["body_flat"] = fs[1] if fs[0] == "SList" else [fs]
+                    kd["ids_flat"] = dict(fitn.ids)
+                    kd["ktext"] = text
             else:
                 kd["text_tied"] = None
         except ffx.Unsupported as e:
@@ -137,7 +144,7 @@ def main():
         signal.alarm(int(job.get("timeout", 120)))
         try:
             r = process_case(case, job.get("lit", "exact"), job.get("want_text", False),
-                             capture_opt=job.get("capture_opt", False),
+                             capture_opt=job.get("capture_opt", False), want_flat=job.get("want_flat", False),
                              disable_opt=job.get("disable_opt", False))
         except CaseTimeout:
             r = {"id": case["id"], "code": case["code"], "status": "timeout", "kernels": []}
